@@ -53,7 +53,7 @@ structure CompilesTo (m : Model (Ext K)) (lm : LinModel (Ext K)) : Prop where
 /-- the direction of the compiled model is the direction of the source (read off `assemble`). -/
 theorem compile_optType {α : Type} [Arith α] {m : Model α} {tol : α} {maxSteps : Nat} {lm : LinModel α}
     (h : Compile.linearize m tol maxSteps = .ok lm) : lm.optType = m.optType := by
-  obtain ⟨an, _, hlin⟩ := (compile_ok_iff m tol maxSteps lm).mp h
+  obtain ⟨_, an, _, hlin⟩ := (compile_ok_iff m tol maxSteps lm).mp h
   obtain ⟨objExp, s1, obj, s2, s3, _, _, _, rfl⟩ := (linearizeWith_ok_iff _ _ _ _).mp hlin
   rfl
 
